@@ -588,6 +588,12 @@ def run(rep, tier, seed):
                 'history pair' % max_len)
     rep.assumptions = ['decoding routes that do not round-trip (C01/C02 matters, e.g. finding E1) are skipped and counted',
                        'text codecs trusted; decimal REAL not generated']
+    # the SET OF ordering of CER/DER is translated from the source on every run (gen/py2lean.py -> GenK.setOfSort), proved equal
+    # to the model's sort and insensitive to the order of the elements (Props/C04.source_setof_order_insensitive); the
+    # translation is run against the real method here
+    from harness import kernels
+    kernels.obligations(rep, ['setOfSort'])
+    kernels.check(rep, drv, seed, 150 if quick else 5000, which=('setOfSort',))
     rep.case('default initialisers', nontrivial=True)
     check_default_scalar_initialisers(rep)
     for ts, vs in ROUTE_CORPUS:
